@@ -58,6 +58,9 @@ func runVestScenarioOpts(c *fw.Case, profile string, families bool, props ...str
 		e.profile = profile
 		e.trackFamilies = families
 		e.govOwner = true
+		if c.R.Intn(3) == 0 {
+			e.stageSubSecondType(c.R)
+		}
 	}
 	if err != nil {
 		if p := asPanic(err); p != nil {
